@@ -3,9 +3,11 @@
 import json, os
 HERE = os.path.dirname(os.path.dirname(os.path.abspath(__file__)))
 ALL = ["C%02d" % i for i in range(1, 19)]
-GEN = (" Second tie (regenerated on every run): translate/py2coq.py translates tcp_signatures_match, calculate_window_multiplier, round_frequency, "
-       "guess_distance and should_fingerprint from /repo's CURRENT source to Gallina (fail-closed subset) and coq/Gen/GenP.v proves the generated "
-       "definitions equal to the hand-written models for all inputs, so for these functions the theorems are re-checked against what the code says now.")
+GEN = (" Second tie (regenerated on every run): translate/py2coq.py translates tcp_signatures_match, calculate_window_multiplier, find_tcp_match, the "
+       "TCPResult distance, round_frequency, guess_distance, should_fingerprint, the three valid_for_*_fingerprint gates, MTUPacketSignature.from_mss, "
+       "mtu_signatures_match, find_mtu_match, find_http_match, HTTP.software and the dishonest flag from /repo's CURRENT source to Gallina (fail-closed "
+       "subset incl. for/while loops, early return, optional values) and coq/Gen/GenP.v proves the generated definitions equal to the hand-written models "
+       "for all inputs, so for these functions the theorems are re-checked against what the code says now.")
 TIE = ("Tie to /repo: the hand-written Gallina model is extracted (ExtrOcamlBasic) and run against the working tree's pyp0f on "
        "boundary-directed generated cases plus exhaustive sweeps of the small sub-domains; every disagreement is a replayable "
        "failing input. Assurance = the weaker of proof and tie.")
@@ -36,7 +38,7 @@ CLAIMED = {
              tech="Coq proof (mod 2^32 arithmetic, rounding over all Z) + extracted-model differential correspondence", ref="DESIGN.md section 4 C13"),
  "C08": dict(text="Coq theorems: MTU = MSS+40/60 and the earliest record with exactly that MTU (first-occurrence characterisation), exact packet gate, "
                   "impersonation round trip (the MSS a dissector reads from the new option list gives back m), other options and their order untouched, "
-                  "every former MSS position still an MSS. " + TIE + " The impersonated packet is re-fingerprinted by the real code and all non-option "
+                  "every former MSS position still an MSS. " + TIE + GEN + " The impersonated packet is re-fingerprinted by the real code and all non-option "
                   "header fields are compared.",
              note="Trusted: as C01; options of the base packet are abstracted to MSS / opaque-other by the harness; (fragment,type,version,MSS) given to "
                   "the fingerprint model are those the implementation extracted (C03's tie). No axioms.",
@@ -60,7 +62,7 @@ CLAIMED = {
              tech="Coq proof (termination by fuel, totality) + mutation-based differential/robustness run with hang detection", ref="DESIGN.md section 4 C04"),
  "C06": dict(text="Coq theorems: headers_match's index loop <-> the inductive ordered Walk of the statement (first occurrence at/after the cursor, substring "
                   "inside that occurrence, optional header only if it occurs nowhere); http_signatures_match <-> version/required/absent/walk; selection = "
-                  "earliest non-generic else earliest generic; software = first non-empty User-Agent else Server; dishonest iff; section by first line. " + TIE,
+                  "earliest non-generic else earliest generic; software = first non-empty User-Agent else Server; dishonest iff; section by first line. " + TIE + GEN,
              note="Trusted: as C01; the database text is parsed by the model's parser (tied to the implementation's by C09/C10). No axioms.",
              tech="Coq proof (loop = inductive walk, selection) + extracted-model differential correspondence through fingerprint_http", ref="DESIGN.md section 4 C06"),
  "C07": dict(text="Coq theorems: for every head written as lines with CRLF or bare LF per line followed by a blank line and arbitrary body bytes the lines are "
